@@ -53,6 +53,9 @@ var (
 	crashHits  sync.Map // point -> *int64
 	crashLog   *os.File
 	crashOK    bool
+
+	crashLogPath string
+	crashGlobal  bool
 )
 
 func setup() {
@@ -86,7 +89,9 @@ func setup() {
 	}
 	if p := os.Getenv("VERIF_CRASH_LOG"); p != "" {
 		crashLog, _ = os.OpenFile(p, os.O_WRONLY|os.O_APPEND|os.O_CREATE, 0o644)
+		crashLogPath = p
 	}
+	crashGlobal = os.Getenv("VERIF_CRASH_GLOBAL") != ""
 }
 
 // SetSink installs an in-process event consumer (harness linked into the same binary).
@@ -176,6 +181,19 @@ func Crash(point string) {
 	}
 	v, _ := crashHits.LoadOrStore(point, new(int64))
 	n := atomic.AddInt64(v.(*int64), 1)
+	if crashGlobal && crashLogPath != "" {
+		// ordinal across all processes of the scenario: hits of this point
+		// already recorded in the shared log, plus this one
+		n = 1
+		if b, err := os.ReadFile(crashLogPath); err == nil {
+			for _, l := range strings.Split(string(b), "\n") {
+				f := strings.Fields(l)
+				if len(f) == 4 && f[2] == point {
+					n++
+				}
+			}
+		}
+	}
 	if crashLog != nil {
 		arg := ""
 		if len(os.Args) > 1 {
